@@ -1,6 +1,7 @@
 package main
 
 import (
+	"os"
 	"go/token"
 	"strings"
 
@@ -148,7 +149,12 @@ func sortedBeforeStore(r *R, fnName, field string) {
 		return
 	}
 	o.AtI(sorts[0])
-	o.Check(unwrapIface(callOf(sorts[0]).Args[0]) == list || c.Expr(callOf(sorts[0]).Args[0]) == c.Expr(list), "the slice sorted (%s) is not the slice stored (%s)", c.Expr(callOf(sorts[0]).Args[0]), c.Expr(list))
+	sameCell := func(a, b ssa.Value) bool {
+		la, ok1 := unwrapIface(a).(*ssa.UnOp)
+		lb, ok2 := unwrapIface(b).(*ssa.UnOp)
+		return ok1 && ok2 && la.Op == token.MUL && lb.Op == token.MUL && la.X == lb.X
+	}
+	o.Check(unwrapIface(callOf(sorts[0]).Args[0]) == list || sameCell(callOf(sorts[0]).Args[0], list) || c.Expr(callOf(sorts[0]).Args[0]) == c.Expr(list), "the slice sorted (%s) is not the slice stored (%s)", c.Expr(callOf(sorts[0]).Args[0]), c.Expr(list))
 	// on every path to the store where keepOriginalOrder (p2) is false, the sort happens: the only guard allowed on the sort is -p2
 	bad := ""
 	for _, g := range c.guardStrs(sorts[0].Block()) {
@@ -620,12 +626,19 @@ func c02r6(r *R) {
 		var cases []vcase
 		if phi, ok := unwrapIface(st.Val).(*ssa.Phi); ok && phi.Block() == st.Block() {
 			for k, e := range phi.Edges {
-				cases = append(cases, vcase{c.Expr(e), c.guardStrs(phi.Block().Preds[k])})
+				cases = append(cases, vcase{c.Expr(e), edgeGuards(c, phi.Block().Preds[k], phi.Block())})
 			}
 		} else {
 			cases = append(cases, vcase{c.Expr(unwrapIface(st.Val)), c.guardStrs(st.Block())})
 		}
 		for _, vc := range cases {
+			if os.Getenv("FPCHECK_DEBUG_C02") != "" {
+				println("C02 tlsver case:", vc.e, "||", strings.Join(vc.gs, " ; "))
+			}
+			// where TLSVersMax has just been tested to be 0, it is 0 (`vers := chs.TLSVersMax; if vers == 0 {…}`)
+			if vc.e == "p1.TLSVersMax" && hasGuard(vc.gs, "+(0 == p1.TLSVersMax)") {
+				vc.e = "0"
+			}
 			if vc.e == "p1.TLSVersMax" {
 				sawLegacy = true
 				o.Check(hasGuard(vc.gs, "-(0 == p1.TLSVersMax)"), "the legacy version is used although supported_versions is present")
@@ -804,6 +817,11 @@ func ascendingSorts(c *Ctx, fn *ssa.Function) []ssa.Instruction {
 				if ret, isR := j.(*ssa.Return); isR {
 					e := c.Expr(ret.Results[0])
 					ok = e == "(outer("+sl+")[p0] < outer("+sl+")[p1])"
+					if !ok {
+						// the same, decided on the values (long renderings are cut at different depths): the comparator
+						// returns s[x] < s[y] where s is the captured variable that the sorted slice was loaded from
+						ok = lessOfCaptured(c, cl, ret.Results[0], cc.Args[0])
+					}
 				}
 			})
 			if ok {
@@ -812,4 +830,45 @@ func ascendingSorts(c *Ctx, fn *ssa.Function) []ssa.Instruction {
 		}
 	})
 	return out
+}
+
+
+// lessOfCaptured: v (a result of the closure cl) is `s[p0] < s[p1]` with s a load of the captured cell that sorted
+// (the slice handed to the sort) is loaded from, or the very same value.
+func lessOfCaptured(c *Ctx, cl *ssa.Function, v ssa.Value, sorted ssa.Value) bool {
+	bo, ok := v.(*ssa.BinOp)
+	if !ok || bo.Op != token.LSS || len(cl.Params) != 2 {
+		return false
+	}
+	var cell ssa.Value
+	sorted = unwrapIface(sorted)
+	if ld, ok := sorted.(*ssa.UnOp); ok && ld.Op == token.MUL {
+		cell = ld.X
+	}
+	mc := c.closureSite(cl)
+	elem := func(x ssa.Value, idx *ssa.Parameter) bool {
+		ld, ok := x.(*ssa.UnOp)
+		if !ok || ld.Op != token.MUL {
+			return false
+		}
+		ia, ok := ld.X.(*ssa.IndexAddr)
+		if !ok || ia.Index != ssa.Value(idx) {
+			return false
+		}
+		base := ia.X
+		if bl, ok := base.(*ssa.UnOp); ok && bl.Op == token.MUL {
+			base = bl.X
+		}
+		fv, ok := base.(*ssa.FreeVar)
+		if !ok || mc == nil {
+			return false
+		}
+		for i, f := range cl.FreeVars {
+			if f == fv && i < len(mc.Bindings) {
+				return mc.Bindings[i] == cell || mc.Bindings[i] == sorted
+			}
+		}
+		return false
+	}
+	return elem(bo.X, cl.Params[0]) && elem(bo.Y, cl.Params[1])
 }
